@@ -3810,7 +3810,12 @@ scaled_bilinear_scanline_mmx_8888_8_8888_OVER (uint32_t *       dst,
 	{
 	    BILINEAR_INTERPOLATE_ONE_PIXEL (pix1);
 
-	    if (m == 0xff && is_opaque (pix1))
+	    /* pix1 is a packed pixel (the interpolated a8r8g8b8 value in both
+	     * halves of the register); is_opaque() looks at the alpha lane of
+	     * an unpacked one
+	     */
+	    if (m == 0xff &&
+		is_opaque (_mm_unpacklo_pi8 (pix1, _mm_setzero_si64 ())))
 	    {
 		store (dst, pix1);
 	    }
